@@ -31,6 +31,16 @@ Theorem C05_others_untouched : forall w i e w' o cl, Inv w -> step cfg verify w 
   (forall j, j ∈ cl -> conns w' !! j = None).
 Proof. intros w i e w' o cl I H. destruct (step_frame cfg verify w i e w' o cl I H) as [_ [_ [_ [A [B _]]]]]. auto. Qed.
 
+(* in every reachable world every one of the 41 commands, with any parameters that pass the parser,
+   from any registered connection, returns normally (the handler answers or ignores the line) *)
+Theorem C05_every_command_answers : forall w i c cmd msg, reachable cfg verify w ->
+  conns w !! i = Some c -> c_auth c = true -> command_of_message msg = inl cmd ->
+  exists r, dispatch cfg verify i (sh w) c cmd msg = Ok r.
+Proof.
+  intros w i c cmd msg R Hc A Hcmd. destruct (reachable_inv cfg verify w R) as [I _].
+  destruct (dispatch_auth_ok cfg verify i (sh w) c cmd msg (iw_s w I) (iw_cu w I i c Hc) A Hcmd) as [r [Hr _]]. eauto.
+Qed.
+
 (* the sending connection stays open unless the protocol itself ends it, and nobody else is
    closed except by an operator: a connection j closed by a step of connection i is either i itself -
    closed by an over-long line, invalid text, its own close, the pong timeout, the connection limit,
@@ -56,5 +66,6 @@ Print Assumptions C05_no_abort.
 Print Assumptions C05_keeps_serving.
 Print Assumptions C05_invariant.
 Print Assumptions C05_others_untouched.
+Print Assumptions C05_every_command_answers.
 Print Assumptions C05_closed_only_by_protocol.
 Print Assumptions C05_quit_causes.
